@@ -755,6 +755,30 @@ def b_native(B):
                inputs={"kind": "append_saturation"})
     finally:
         shutil.rmtree(d, ignore_errors=True)
+    # append mode together with padding (both in the statement's configuration box): after the second run, entry k of the saturation file describes sample k of the output
+    d = tempfile.mkdtemp(prefix="c06_")
+    try:
+        d1, d2, od = (os.path.join(d, x_) for x_ in ("a", "b", "out"))
+        for x_ in (d1, d2, od):
+            os.makedirs(x_)
+        ap1, x1 = _mk_rec(d1, 9000, rng)
+        ap2, x2 = _mk_rec(d2, 7000, rng)
+        out = os.path.join(od, "out.bin")
+        with joblib.parallel_backend("threading"):
+            V.decompress_destripe_cbin(ap1, output_file=out, nbatch=8192, nprocesses=1, reject_channels=False, ns2add=100)
+            n1 = os.path.getsize(out) // (385 * 2)
+            V.decompress_destripe_cbin(ap2, output_file=out, nbatch=8192, nprocesses=1, reject_channels=False, ns2add=100, append=True)
+        n2 = os.path.getsize(out) // (385 * 2)
+        sat = np.load(os.path.join(od, "_iblqc_ephysSaturation.samples.npy"))
+        srb = spikeglx.Reader(ap2)
+        want2 = V.saturation((x2[:, :384].astype(np.float32) * srb.sample2volts[:384]).T, max_voltage=srb.range_volts[:384], fs=srb.fs)[0].astype(bool)
+        srb.close()
+        aligned = sat.shape[0] >= n1 + 7000 and np.array_equal(sat[n1:n1 + 7000].astype(bool), want2)
+        B.case("append_with_padding_saturation_follows_the_output", bool((n1, n2) == (9100, 16200) and aligned),
+               detail={"output_samples_after_each_run": [int(n1), int(n2)], "saturation_entries": int(sat.shape[0]), "flags_of_the_second_run_at_its_output_positions": bool(aligned)},
+               inputs={"kind": "append_with_padding"})
+    finally:
+        shutil.rmtree(d, ignore_errors=True)
     badf = native_destripe(rng, 20000, 8192, (1, 3) if B.tier == "quick" else (1, 2, 3, 5), False, out_dtype=np.float32)
     B.case(("float32_output", 20000, 8192), not badf, detail=badf[:4], inputs={"kind": "destripe_float32"})
     for ns, nb, workers, kf in combos:
